@@ -3,6 +3,7 @@ C09 — the layered key-value store is one ordered map on every backend. Propert
 the model is `Model/Store.lean`, the specification `Model/Store/Spec.lean`, lemmas `Proofs/Store*.lean`.
 -/
 import NeoModel.Proofs.StoreSeekSpec
+set_option linter.unusedSimpArgs false
 namespace NeoModel.Store.C09
 
 /-- C09 (point reads): `Get` on any stack over any backend returns what the ordered map holds. -/
@@ -183,12 +184,67 @@ theorem flush_seek_invisible {s s' : Store} (st : FlushStep s s') (h : s.WF) (rn
   apply backends_agree s' s (flushStep_WF st h) h rng hp
   rw [hd]; exact flushStep_flatten st h
 
-/-- C09 (scans during any schedule): at any moment of any interleaving of writes with flush steps a
-full-depth range scan is the answer of the ordered map that received the same writes. -/
-theorem seek_during_flush {s s' : Store} {es : List Ev} (r : Run s es s') (h : s.WF) (rng : SeekRange)
+/-
+FULL STATEMENT (false on the code as it is): "a range scan that overlaps ANY schedule of writes and
+flush steps answers with the ordered map of some moment between its start and its end". The real
+Seek is not one step: it snapshots the cached items, releases the lock and scans the lower store
+later (`Store.seekTwoPhase`). With a client batch AND a complete flush between the two sections the
+answer mixes two generations (`seek_torn_witness`; known finding seek-torn-by-write-and-flush).
+What is proved: the statement for scans that are atomic with respect to the schedule.
+-/
+
+/-- C09 (scans during any schedule, partial): at any moment of any interleaving of writes with flush
+steps a full-depth range scan taken in one step is the answer of the ordered map that received the
+same writes. -/
+theorem seek_during_flush_partial {s s' : Store} {es : List Ev} (r : Run s es s') (h : s.WF) (rng : SeekRange)
     (hp : rng.pfx ≠ []) (hd : rng.depth = 0) : IsSpecSeek (specAfter s.flatten es) rng (s'.seek rng) := by
   have := seek_spec s' (run_WF r h) rng hp
   rw [hd] at this
   rw [← persist_invisible r h]; exact this
+
+-- non-vacuity: the run of the flush example above, scanned at its end
+example : IsSpecSeek
+    (specAfter (Store.cached (Layer.fresh false) (.memB [] [])).flatten
+      [.put [0x70] (some [1]), .tau, .put [0x71] (some [2])])
+    { pfx := [0x71], start := [], bw := true, depth := 0 }
+    ((((Store.cached (Layer.fresh false) (.memB [] [])).put [0x70] (some [1])).persist1.put [0x71] (some [2])).seek
+      { pfx := [0x71], start := [], bw := true, depth := 0 }) := by
+  refine seek_during_flush_partial ?_ (by refine ⟨by unfold Layer.WF MapWF Placed Layer.fresh; decide, by unfold MapWF; decide, by unfold MapWF; decide⟩) _ (by decide) rfl
+  refine .cons _ _ _ _ _ (.put _ _ _ _) ?_
+  refine .cons _ _ _ _ _ (.flush _ _ (.begin _ _)) ?_
+  exact .cons _ _ _ _ _ (.put _ _ _ _) (.nil _)
+
+/-! the negation witness for the full statement -/
+
+def tornA : Key := [0x70, 0x41]
+def tornB : Key := [0x70, 0x42]
+def tornC : Key := [0x70, 0x43]
+/-- cache {A:1, B:1} over an empty MemoryStore. -/
+def torn0 : Store :=
+  .cached { priv := false, mem := [], stor := [(tornA, some [1]), (tornB, some [1])] } (.memB [] [])
+/-- after PutChangeSet {B:2, C:2} … -/
+def torn1 : Store :=
+  .cached ((Layer.mk false [] [(tornA, some [1]), (tornB, some [1])] false).putCS [] [(tornB, some [2]), (tornC, some [2])])
+    (.memB [] [])
+/-- … and a complete Persist. -/
+def torn2 : Store := torn1.persist.1
+def tornRng : SeekRange := { pfx := [0x70], start := [], bw := false, depth := 0 }
+
+theorem torn_run : Run torn0 [.batch [] [(tornB, some [2]), (tornC, some [2])], .tau] torn2 := by
+  refine .cons _ _ _ _ _ (.batch _ _ _ _ (by unfold MapWF; decide) (by unfold MapWF; decide) (by unfold Placed; decide)) ?_
+  exact .cons _ _ _ _ _ (.flush _ _ (.whole _ _)) (.nil _)
+
+set_option maxRecDepth 4000 in
+/-- a Seek whose snapshot was taken in `torn0` and whose lower scan runs in `torn2` returns B of
+the first generation with C of the second: neither the answer before the batch nor after it. -/
+theorem seek_torn_witness :
+    torn0.seekTwoPhase torn2 tornRng = [(tornA, [1]), (tornB, [1]), (tornC, [2])] ∧
+    torn0.seek tornRng = [(tornA, [1]), (tornB, [1])] ∧
+    torn2.seek tornRng = [(tornA, [1]), (tornB, [2]), (tornC, [2])] := by
+  refine ⟨?_, ?_, ?_⟩ <;>
+  simp [Store.seekTwoPhase, torn0, torn1, torn2, tornRng, tornA, tornB, tornC, Store.persist, Layer.count, Layer.putCS,
+    mapCopy, mapSet, Store.persist1, Store.persist2, Store.persist3, Store.putChangeSet, Store.seek, memorySeek,
+    isStor, sortKV, sortKVE, List.mergeSort, List.MergeSort.Internal.splitInTwo, List.merge, leDir, ltDir, lexLt,
+    isKeyOK, lexLe, lowerRange, snapshot, Layer.choose, performSeek, mergeFunc, mergeLoop, flushLoop, emit, contOK, cutKey]
 
 end NeoModel.Store.C09
